@@ -57,7 +57,7 @@ M = [
  ("C17", "duplicate-check-dropped", "typer/src/typer/pipelines.rs", "        return Err(TyperError::PipelineDuplicate(pipeline.name.location));", "        let _ = TyperError::PipelineDuplicate(pipeline.name.location);", ["C17.dup/unique-names"]),
  ("C18", "vulkan-flag-in-function-export", "hlsl/src/ast_generate.rs", "let return_type = generate_type(sig.return_type.return_type, context)?;", "let return_type = generate_type(sig.return_type.return_type, context)?; if context.module.flags.requires_vk_binding { attributes.clear(); }", ["C18.confine/generate_function_inner"]),
  ("C19", "validation-not-gated", "src/compile.rs", "if args.validate_layout_consistency\n        && let Err(err) = ir::layout_checker::check_layout(&ir)", "if !args.no_pipeline_mode\n        && let Err(err) = ir::layout_checker::check_layout(&ir)", ["C19.wire/iff-enabled"]),
- ("C19", "struct-align-up-removed", "ir/src/layout_checker.rs", "layout.size = layout.size.next_multiple_of(member_layout.align);\n", "", ["C19.shape/struct"]),
+ ("C19", "struct-align-up-removed", "ir/src/layout_checker.rs", "layout.size = layout.size.next_multiple_of(member_layout.align);\n", "", ["C19.shape/layout/Metal", "C19.shape/verdict"]),
 ]
 
 
